@@ -613,8 +613,8 @@ class ErdosRenyiNet(DynamicNetwork):
         r = ss.utils.combine_rands(i1, i2) # TODO: use ss.multi_rand()
         edge = r <= self.pars.p
 
-        p1 = idx1[edge]
-        p2 = idx2[edge]
+        p1 = born_uids[idx1[edge]] # Convert positions in born_uids to UIDs (they differ once agents have been removed)
+        p2 = born_uids[idx2[edge]]
         beta = np.ones(len(p1), dtype=ss_float_)
 
         if isinstance(self.pars.dur, ss.Dist):
@@ -690,7 +690,9 @@ class DiskNet(Network):
 
     def add_pairs(self):
         """ Generate contacts """
-        p1, p2 = np.triu_indices(n=len(self.x), k=1)
+        auids = self.sim.people.auids # Pair active agents by UID (positions differ from UIDs once agents have been removed)
+        i1, i2 = np.triu_indices(n=len(auids), k=1)
+        p1, p2 = auids[i1], auids[i2]
         d12_sq = (self.x.raw[p2]-self.x.raw[p1])**2 + (self.y.raw[p2]-self.y.raw[p1])**2
         edge = d12_sq < self.pars.r**2
 
